@@ -40,8 +40,11 @@ type Evidence struct {
 var propRe = regexp.MustCompile(`^//@\s*prop\s+(.*)$`)
 
 // packagesForProp scans contract files for the packages that carry clauses of a property.
-func packagesForProp(repo, verif, prop string) []string {
+var scanRe = regexp.MustCompile(`^//@\s*scan\b`)
+
+func packagesForProp(repo, verif, prop string) ([]string, bool) {
 	set := map[string]bool{}
+	needAll := false
 	scan := func(root, base string) {
 		filepath.Walk(root, func(path string, info os.FileInfo, err error) error {
 			if err != nil || info.IsDir() {
@@ -54,12 +57,19 @@ func packagesForProp(repo, verif, prop string) []string {
 				return nil
 			}
 			data, _ := os.ReadFile(path)
+			cur := false
 			for _, l := range strings.Split(string(data), "\n") {
-				if m := propRe.FindStringSubmatch(strings.TrimSpace(l)); m != nil {
-					if contains(strings.Fields(m[1]), prop) {
+				t := strings.TrimSpace(l)
+				if m := propRe.FindStringSubmatch(t); m != nil {
+					cur = contains(strings.Fields(m[1]), prop)
+					if cur {
 						rel, _ := filepath.Rel(base, filepath.Dir(path))
 						set["./"+rel] = true
 					}
+				} else if strings.HasPrefix(t, "//@ func ") || strings.HasPrefix(t, "//@ iface ") {
+					cur = false
+				} else if cur && scanRe.MatchString(t) {
+					needAll = true // structural scans look at the whole repository
 				}
 			}
 			return nil
@@ -75,7 +85,7 @@ func packagesForProp(repo, verif, prop string) []string {
 		out = append(out, k)
 	}
 	sort.Strings(out)
-	return out
+	return out, needAll
 }
 
 func clauseHasProp(c *Clause, prop string) bool { return contains(c.Props, prop) }
@@ -131,12 +141,12 @@ func runCheck(repo, verif, prop string, thorough, verbose, writeEvidence, update
 	if thorough {
 		tier = "thorough"
 	}
-	pats := packagesForProp(repo, verif, prop)
+	pats, needAll := packagesForProp(repo, verif, prop)
 	if len(pats) == 0 {
 		fmt.Printf("ENGINE-ERROR: no contract file mentions property %s\n", prop)
 		return 2
 	}
-	if sweepProps[prop] {
+	if sweepProps[prop] || needAll {
 		pats = []string{"./..."}
 	}
 	eng, err := loadEngine(repo, verif, pats)
